@@ -216,11 +216,11 @@ _C20 = [
 ]
 
 _C01 = [
-    M(["C01", "C02"], "jolt-support-same-dir", JO, "gjk_distance_jolt", "collider2.support_function(-search_direction)", "collider2.support_function(search_direction)", ["R-MINK", "gjk_distance_jolt", "negated"]),
-    M(["C01", "C02"], "jolt-intersection-same-dir", JO, "gjk_intersection_jolt", "collider2.support_function(-search_direction)", "collider2.support_function(search_direction)", ["R-MINK", "gjk_intersection_jolt"]),
-    M(["C01", "C02"], "jolt-diff-swapped", JO, "_distance_loop", "support_point = p - q", "support_point = q - p", ["R-MINK", "difference"]),
-    M(["C01", "C02", "C08"], "mink-make-support-swapped", MK, "make_support_point", "return (v1 - v2, v1, v2)", "return (v2 - v1, v1, v2)", ["R-MINK", "make_support_point"]),
-    M(["C01", "C02", "C08"], "mink-support-both-positive", MK, "support_function", "collider2.support_function(-search_direction)", "collider2.support_function(search_direction)", ["R-MINK", "minkowski::support_function"]),
+    M(["C01"], "jolt-support-same-dir", JO, "gjk_distance_jolt", "collider2.support_function(-search_direction)", "collider2.support_function(search_direction)", ["R-MINK", "gjk_distance_jolt", "negated"]),
+    M(["C02"], "jolt-intersection-same-dir", JO, "gjk_intersection_jolt", "collider2.support_function(-search_direction)", "collider2.support_function(search_direction)", ["R-MINK", "gjk_intersection_jolt"]),
+    M(["C01"], "jolt-diff-swapped", JO, "_distance_loop", "support_point = p - q", "support_point = q - p", ["R-MINK", "difference"]),
+    M(["C02", "C08"], "mink-make-support-swapped", MK, "make_support_point", "return (v1 - v2, v1, v2)", "return (v2 - v1, v1, v2)", ["R-MINK", "make_support_point"]),
+    M(["C02", "C08"], "mink-support-both-positive", MK, "support_function", "collider2.support_function(-search_direction)", "collider2.support_function(search_direction)", ["R-MINK", "minkowski::support_function"]),
     M(["C02"], "libccd-seed-swapped", LC, "_gjk", "make_support_point(collider1.first_vertex(), collider2.first_vertex())", "make_support_point(collider2.first_vertex(), collider1.first_vertex())", ["R-MINK", "seed"]),
     M(["C02"], "libccd-forward-swapped", LC, "_gjk", "support_function(collider1, collider2, search_direction)", "support_function(collider2, collider1, search_direction)", ["R-MINK", "forwards"]),
     M(["C01"], "par-q-row-missing", JO, "_distance_loop", "Q[n_points] = q", "", ["R-PAR", "_distance_loop"]),
@@ -284,10 +284,10 @@ _C09 = [
     M(["C09", "C02"], "dtree-condition", NP_, "project_line_origin", "d < 0", "d <= 0", ["R-DTREE", "project_line_origin"]),
     M(["C09", "C02"], "dtree-leaf", NE, "project_tetra_to_origin", "ray, simplex_len = region_ad(tetra, a_index, d_index, a, d, da_aa)", "ray, simplex_len = region_ac(tetra, a_index, c_index, a, c, ca_aa)", ["R-DTREE", "project_tetra_to_origin"], nth=0),
     M(["C09", "C02"], "dtree-region-body", NP_, "origin_to_segment", "ray = (ab.dot(b) * a + ab_dot_a0 * b) / ab.dot(ab)", "ray = (ab.dot(b) * a - ab_dot_a0 * b) / ab.dot(ab)", ["R-DTREE", "origin_to_segment"]),
-    M(["C09", "C02"], "tuplerole-distance-index", NE, "gjk_nesterov_accelerated_distance", "gjk_nesterov_accelerated(collider1, collider2)[1]", "gjk_nesterov_accelerated(collider1, collider2)[3]", ["R-TUPLEROLE", "gjk_nesterov_accelerated_distance"]),
-    M(["C09", "C02"], "tuplerole-no-clamp", NP_, "gjk_nesterov_accelerated_primitives_distance", "max(gjk_nesterov_accelerated_primitives(collider0, collider1)[1], 0.0)", "gjk_nesterov_accelerated_primitives(collider0, collider1)[1]", ["R-TUPLEROLE", "clamped"]),
+    M(["C09"], "tuplerole-distance-index", NE, "gjk_nesterov_accelerated_distance", "gjk_nesterov_accelerated(collider1, collider2)[1]", "gjk_nesterov_accelerated(collider1, collider2)[3]", ["R-TUPLEROLE", "gjk_nesterov_accelerated_distance"]),
+    M(["C09"], "tuplerole-no-clamp", NP_, "gjk_nesterov_accelerated_primitives_distance", "max(gjk_nesterov_accelerated_primitives(collider0, collider1)[1], 0.0)", "gjk_nesterov_accelerated_primitives(collider0, collider1)[1]", ["R-TUPLEROLE", "clamped"]),
     M(["C09"], "tuplerole-original-iterations", OR, "gjk_distance_iterations", "gjk_distance_original(collider1, collider2)[4]", "gjk_distance_original(collider1, collider2)[3]", ["R-TUPLEROLE", "gjk_distance_iterations"]),
-    M(["C09", "C02"], "tuplerole-return-order", NE, "gjk_nesterov_accelerated", "return (inside, distance, simplex, i)", "return (inside, simplex, distance, i)", ["R-TUPLEROLE"]),
+    M(["C09"], "tuplerole-return-order", NE, "gjk_nesterov_accelerated", "return (inside, distance, simplex, i)", "return (inside, simplex, distance, i)", ["R-TUPLEROLE"]),
     M(["C09"], "tuplerole-jolt-iterations-args", JO, "gjk_distance_jolt_iterations",
       "_distance_loop(p, q, Y, P, Q, n_points, tolerance_sq, prev_v_len_sq, v_len_sq, search_direction, max_distance_squared)",
       "_distance_loop(q, p, Y, P, Q, n_points, tolerance_sq, prev_v_len_sq, v_len_sq, search_direction, max_distance_squared)", ["gjk_distance_jolt_iterations"]),
@@ -308,8 +308,8 @@ _C08 = [
     M(["C08", "C02"], "mpr-par-rows", MP, "_expand_portal", "v[3], v1[3], v2[3] = (v4, v14, v24)", "v[3], v1[3], v2[2] = (v4, v14, v24)", ["R-PAR", "_expand_portal"]),
     M(["C08", "C02"], "mpr-par-sources", MP, "_iterate_discover_portal", "v[1], v1[1], v2[1] = (v[3], v1[3], v2[3])", "v[1], v1[1], v2[1] = (v[3], v1[3], v2[2])", ["R-PAR", "_iterate_discover_portal"]),
     M(["C08", "C02"], "mpr-seed-mixed", MP, "_find_origin_ray", "make_support_point(collider1.center(), collider2.center())", "make_support_point(collider1.center(), collider2.first_vertex())", ["R-MINK", "seed"]),
-    M(["C08", "C02"], "mpr-forward-swapped", MP, "_find_penetration_info", "support_function(collider1, collider2, search_direction)", "support_function(collider2, collider1, search_direction)", ["R-MINK", "forwards"]),
-    M(["C08", "C02"], "simplex-add-point-rows", MK, "Simplex.add_point", "self.v2[self.n_points] = v2", "self.v2[self.n_points] = v1", ["R-PAR", "add_point"]),
+    M(["C08"], "mpr-forward-swapped", MP, "_find_penetration_info", "support_function(collider1, collider2, search_direction)", "support_function(collider2, collider1, search_direction)", ["R-MINK", "forwards"]),
+    M(["C02"], "simplex-add-point-rows", MK, "Simplex.add_point", "self.v2[self.n_points] = v2", "self.v2[self.n_points] = v1", ["R-PAR", "add_point"]),
 ]
 
 GE = "distance3d/geometry.py"
@@ -329,7 +329,7 @@ _C03 = [
     M(["C03", "C12"], "frame-box-double-transform", GE, "support_function_box", "return transform_point(box2origin, local_vertex)", "return transform_point(box2origin, transform_point(box2origin, local_vertex))", ["R-FRAME", "support_function_box"]),
     M(["C03", "C12"], "frame-ellipsoid-rotation-only", GE, "support_function_ellipsoid", "return transform_point(ellipsoid2origin, local_vertex)", "return np.dot(ellipsoid2origin[:3, :3].T, local_vertex)", ["R-FRAME", "support_function_ellipsoid"]),
     M(["C03", "C12"], "frame-transform-point-T", UT, "transform_point", "np.dot(A2B[:3, :3], point_in_A)", "np.dot(A2B[:3, :3].T, point_in_A)", ["R-FRAME", "transform_point"]),
-    M(["C03", "C12"], "frame-inverse-no-T", UT, "inverse_transform_point", "RT = A2B[:3, :3].T", "RT = A2B[:3, :3]", ["R-FRAME", "inverse_transform_point"]),
+    M(["C12", "C10"], "frame-inverse-no-T", UT, "inverse_transform_point", "RT = A2B[:3, :3].T", "RT = A2B[:3, :3]", ["R-FRAME", "inverse_transform_point"]),
     M(["C03", "C12"], "frame-mesh-first-vertex", CO, "MeshGraph.first_vertex", "np.dot(self.mesh2origin[:3, :3], self.vertices[0])", "np.dot(self.mesh2origin[:3, :3].T, self.vertices[0])", ["R-FRAME", "MeshGraph.first_vertex"]),
     M(["C03", "C12"], "frame-meshsupport-dir", ME, "MeshHillClimbingSupportFunction.__call__", "np.dot(self.mesh2origin[:3, :3].T, search_direction)", "np.dot(self.mesh2origin[:3, :3], search_direction)", ["R-FRAME", "MeshHillClimbingSupportFunction"]),
     M(["C03"], "sign-cylinder-flipped", GE, "support_function_cylinder", "local_dir[2] < 0.0", "local_dir[2] > 0.0", ["R-SIGNALIGN", "support_function_cylinder"]),
@@ -340,15 +340,15 @@ _C03 = [
     M(["C03"], "sign-cone-compare-flipped", GE, "support_function_cone", "np.dot(local_dir, disk_point) >= local_dir[2] * height", "np.dot(local_dir, disk_point) <= local_dir[2] * height", ["R-SIGNALIGN", "larger projection"]),
     M(["C03"], "sign-cone-apex-wrong", GE, "support_function_cone", "point_in_cone = np.array([0.0, 0.0, height])", "point_in_cone = np.array([0.0, height, 0.0])", ["R-SIGNALIGN", "support_function_cone"]),
     M(["C03"], "sign-disk-keeps-normal-comp", GE, "support_function_disk", "point[2] = 0.0", "point[1] = 0.0", ["R-AXIS", "disk"]),
-    M(["C03", "C04"], "margin-unnormalised", CO, "Margin.support_function", "self.margin * norm_vector(search_direction)", "self.margin * search_direction", ["R-MARGIN", "support_function"]),
-    M(["C03", "C04"], "margin-subtracted", CO, "Margin.support_function", "self.collider.support_function(search_direction) + self.margin * norm_vector(search_direction)",
+    M(["C03"], "margin-unnormalised", CO, "Margin.support_function", "self.margin * norm_vector(search_direction)", "self.margin * search_direction", ["R-MARGIN", "support_function"]),
+    M(["C03"], "margin-subtracted", CO, "Margin.support_function", "self.collider.support_function(search_direction) + self.margin * norm_vector(search_direction)",
       "self.collider.support_function(search_direction) - self.margin * norm_vector(search_direction)", ["R-MARGIN", "support_function"]),
-    M(["C03", "C04"], "margin-center-not-delegated", CO, "Margin.center", "return self.collider.center()", "return self.collider.first_vertex()", ["R-MARGIN", "center"]),
-    M(["C03", "C04", "C13"], "axis-cylinder-aabb", CT, "cylinder_aabb", "axis = cylinder2origin[:3, 2]", "axis = cylinder2origin[:3, 1]", ["R-AXIS", "cylinder"]),
-    M(["C03", "C04", "C13"], "axis-cone-first-vertex", CO, "Cone.first_vertex", "self.height * self.cone2origin[:3, 2]", "self.height * self.cone2origin[:3, 0]", ["R-AXIS", "cone"]),
-    M(["C03", "C04"], "aabbargs-swapped", CO, "Capsule.support_function", "support_function_capsule(search_direction, self.capsule2origin, self.radius, self.height)",
+    M(["C03"], "margin-center-not-delegated", CO, "Margin.center", "return self.collider.center()", "return self.collider.first_vertex()", ["R-MARGIN", "center"]),
+    M(["C04"], "axis-cylinder-aabb", CT, "cylinder_aabb", "axis = cylinder2origin[:3, 2]", "axis = cylinder2origin[:3, 1]", ["R-AXIS", "cylinder"]),
+    M(["C03"], "axis-cone-first-vertex", CO, "Cone.first_vertex", "self.height * self.cone2origin[:3, 2]", "self.height * self.cone2origin[:3, 0]", ["R-AXIS", "cone"]),
+    M(["C03"], "aabbargs-swapped", CO, "Capsule.support_function", "support_function_capsule(search_direction, self.capsule2origin, self.radius, self.height)",
       "support_function_capsule(search_direction, self.capsule2origin, self.height, self.radius)", ["R-AABBARGS", "Capsule.support_function"]),
-    M(["C03", "C04"], "aabbargs-wrong-shape", CO, "Cylinder.aabb", "cylinder_aabb(self.cylinder2origin, self.radius, self.length)", "capsule_aabb(self.cylinder2origin, self.radius, self.length)", ["R-AABBARGS", "Cylinder.aabb"]),
+    M(["C04"], "aabbargs-wrong-shape", CO, "Cylinder.aabb", "cylinder_aabb(self.cylinder2origin, self.radius, self.length)", "capsule_aabb(self.cylinder2origin, self.radius, self.length)", ["R-AABBARGS", "Cylinder.aabb"]),
 ]
 
 _C04 = [
@@ -366,7 +366,7 @@ _C04 = [
 _C12 = [
     M(["C12", "C10"], "degree-squared-distance-returned", LI, "_line_to_line", "math.sqrt(abs(dist_squared))", "abs(dist_squared)", ["R-", "line"]),
     M(["C12", "C11"], "degree-circle-critical-point", CI, "_case_general", "(radius_m0_squared * b1_squared) ** (2.0 / 3.0) - b1_squared", "m0_squared * b1_squared ** (2.0 / 3.0) - b1_squared", ["R-DEGREE", "_case_general"]),
-    M(["C12", "C10"], "degree-cylinder-clip", CY, "point_to_cylinder", "np.clip(dist_to_plane, -0.5 * length, 0.5 * length)", "np.clip(dist_to_plane, -0.5, 0.5)", ["R-"]) ,
+    M(["C12", "C11"], "degree-cylinder-clip", CY, "point_to_cylinder", "np.clip(dist_to_plane, -0.5 * length, 0.5 * length)", "np.clip(dist_to_plane, -0.5, 0.5)", ["R-"]) ,
     M(["C12", "C10"], "frame-point-to-box-local", BX, "point_to_box", "closest_point = box2origin[:3, 3] + box2origin[:3, :3].dot(closest_point_in_box)", "closest_point = closest_point_in_box", ["R-FRAME", "point_to_box"]),
     M(["C12", "C10"], "frame-point-to-box-world-clip", BX, "point_to_box", "np.clip(point_in_box, -half_size, half_size)", "np.clip(point, -half_size, half_size)", ["R-FRAME", "point_to_box"]),
     M(["C12", "C10"], "frame-line-to-box-direction", LB, "_line_to_box", "direction_in_box = origin2box[:3, :3].dot(line_direction)", "direction_in_box = box2origin[:3, :3].dot(line_direction)", ["R-FRAME", "_line_to_box"]),
@@ -470,6 +470,14 @@ LBX = "distance3d/distance/_line_to_box.py"
 RB = "distance3d/hydroelastic_contact/_rigid_body.py"
 MP = "distance3d/mpr.py"
 _SEEDLIKE = [
+    M(["C04"], "axis-capsule-aabb", "distance3d/containment.py", "capsule_aabb", "0.5 * height * np.abs(capsule2origin[:3, 2]) + radius", "0.5 * height * np.abs(capsule2origin[:3, 0]) + radius", ["R-AXIS", "capsule_aabb"]),
+    M(["C04", "C12"], "aabb-cone-pose-row", "distance3d/containment.py", "cone_aabb", "cone2origin[:3, 3] + height * cone2origin[:3, 2]", "cone2origin[:3, 3] + height * cone2origin[2, :3]", ["R-", "cone_aabb"]),
+    M(["C04"], "aabbargs-capsule-swapped", "distance3d/colliders.py", "Capsule.aabb", "capsule_aabb(self.capsule2origin, self.radius, self.height)", "capsule_aabb(self.capsule2origin, self.height, self.radius)", ["R-AABBARGS", "Capsule.aabb"]),
+    M(["C04", "C12"], "degree-disk-extent", "distance3d/containment.py", "disk_aabb", "radius * np.sqrt(1.0 - normal * normal)", "radius * radius * np.sqrt(1.0 - normal * normal)", ["R-DEGREE", "disk_aabb"]),
+    M(["C13"], "axis-cylinder-test", "distance3d/containment_test.py", "points_in_cylinder", "cylinder2origin[:3, 2]", "cylinder2origin[:3, 1]", ["R-AXIS", "points_in_cylinder"], nth=0),
+    M(["C03", "C13"], "axis-capsule-support", "distance3d/geometry.py", "support_function_capsule", "local_dir[2] > 0.0", "local_dir[1] > 0.0", ["R-AXIS", "support_function_capsule"]),
+    M(["C06", "C14"], "capsule-update-keeps-old-pose", "distance3d/colliders.py", "Capsule.update_pose", "self.capsule2origin = pose", "self.capsule2origin = self.capsule2origin", ["R-COHERENCE", "Capsule"]),
+    M(["C06", "C14"], "meshgraph-update-no-pose", "distance3d/colliders.py", "MeshGraph.update_pose", "self.mesh2origin = mesh2origin", "", ["R-COHERENCE", "MeshGraph"]),
     M(["C01"], "clip-sign-guard-dropped", JO, "_distance_loop", "dot < 0.0 and dot * dot > v_len_sq * max_distance_squared", "dot * dot > v_len_sq * max_distance_squared", ["R-CLIPGUARD", "guarded by s < 0"]),
     M(["C01"], "clip-sign-guard-flipped", JO, "_distance_loop", "dot < 0.0", "dot > 0.0", ["R-CLIPGUARD", "guarded by s < 0"]),
     M(["C01"], "clip-or", JO, "_distance_loop", "dot < 0.0 and dot * dot > v_len_sq * max_distance_squared", "dot < 0.0 or dot * dot > v_len_sq * max_distance_squared", ["R-CLIPGUARD"]),
@@ -492,7 +500,7 @@ _SEEDLIKE = [
     M(["C16"], "sharedpose-asarray", RB, "RigidBody.express_in", "np.copy(new_body2origin)", "np.asarray(new_body2origin, dtype=float)", ["R-SHAREDPOSE", "express_in"]),
     M(["C16"], "sharedpose-plain", RB, "RigidBody.express_in", "np.copy(new_body2origin)", "new_body2origin", ["R-SHAREDPOSE", "express_in"]),
     M(["C19"], "mpr-direction-divided-by-depth", MP, "_find_penetration_info", "return (depth, norm_vector(pdir), pos)", "return (depth, pdir / depth, pos)", ["R-SAFEDIV", "_find_penetration_info"]),
-    M(["C19"], "mpr-direction-not-normalised", MP, "_find_penetration_segment", "norm_vector(penetration_direction)", "penetration_direction / depth", ["R-SAFEDIV", "_find_penetration_segment"]),
+    M(["C19", "C08"], "mpr-segment-direction-divided-by-depth", MP, "_find_penetration_segment", "norm_vector(penetration_direction)", "penetration_direction / depth", ["_find_penetration_segment"]),
     M(["C08"], "mpr-direction-divided-by-depth-c08", MP, "_find_penetration_info", "return (depth, norm_vector(pdir), pos)", "return (depth, pdir / depth, pos)", ["R-UNITDIR"]),
     M(["C19"], "norm-vector-no-zero-exit", "distance3d/utils.py", "norm_vector", "if norm == 0.0:\n    return v", "", ["R-SAFEDIV", "norm_vector"]),
     M(["C19"], "sphere-support-zero-side", "distance3d/geometry.py", "support_function_sphere", "s_norm == 0.0", "s_norm != 0.0", ["R-SAFEDIV", "support_function_sphere"]),
